@@ -166,70 +166,15 @@ fn one_run(c: &Case, p: &Perturb) -> Result<RunResult, String> {
             }
         })));
     }
-    // The command runs on its own thread so that a deadlock can be told from slowness: everything
-    // the library waits for lives in this process (in-memory backend, in-memory source), so a
-    // command that has not returned while no backend call or source read happens AND the process
-    // burns no CPU for a long stretch cannot make progress any more.
-    if AFTER_DEADLOCK.load(Ordering::SeqCst) {
-        return Err(SKIP_AFTER_DEADLOCK.to_string());
-    }
-    let (tx, rx) = std::sync::mpsc::channel();
+    // the command runs on its own thread so that a deadlock can be told from slowness
     let (c2, p2, cfg2) = (c.clone(), p.clone(), cfg.clone());
-    _ = std::thread::Builder::new()
-        .name("c13-command".into())
-        .spawn(move || {
-            let res = guarded(|| one_run_inner(&c2, &p2, &cfg2, &key));
-            _ = tx.send(res);
-        })
-        .map_err(|e| format!("cannot spawn: {e}"))?;
-    let mut still_since = std::time::Instant::now();
-    let mut mark = (crate::membe::PROGRESS.load(Ordering::Relaxed), cpu_time());
-    let res = loop {
-        match rx.recv_timeout(std::time::Duration::from_secs(1)) {
-            Ok(r) => break r,
-            Err(std::sync::mpsc::RecvTimeoutError::Disconnected) => {
-                break Err("the command thread died without a result".to_string());
-            }
-            Err(std::sync::mpsc::RecvTimeoutError::Timeout) => {
-                let now = (crate::membe::PROGRESS.load(Ordering::Relaxed), cpu_time());
-                if now.0 != mark.0 || now.1 - mark.1 > QUIET_CPU {
-                    mark = now;
-                    still_since = std::time::Instant::now();
-                } else if still_since.elapsed() > QUIET {
-                    AFTER_DEADLOCK.store(true, Ordering::SeqCst);
-                    rustic_core::verif::set_sched_callback(None);
-                    return Err(format!(
-                        "deadlock: the command has not returned and for {} s no backend call was made, no source byte was read and the process used less than {:.2} s of CPU",
-                        QUIET.as_secs(),
-                        QUIET_CPU
-                    ));
-                }
-            }
-        }
-    };
+    let res = crate::engine::run_detecting_deadlock(move || guarded(|| one_run_inner(&c2, &p2, &cfg2, &key)));
     rustic_core::verif::set_sched_callback(None);
     match res {
-        Ok(r) => r,
-        Err(panic) => Err(format!("panicked: {panic}")),
+        Ok(Ok(r)) => r,
+        Ok(Err(panic)) => Err(format!("panicked: {panic}")),
+        Err(deadlock) => Err(deadlock),
     }
-}
-
-/// once a command of this process is deadlocked its threads (and whatever they hold) stay around:
-/// later cases of this worker — including shrinking attempts — are not judged any more
-static AFTER_DEADLOCK: std::sync::atomic::AtomicBool = std::sync::atomic::AtomicBool::new(false);
-const SKIP_AFTER_DEADLOCK: &str = "not judged: an earlier command of this worker process is deadlocked";
-const QUIET: std::time::Duration = std::time::Duration::from_secs(60);
-const QUIET_CPU: f64 = 0.25;
-
-/// user + system CPU seconds of this process
-fn cpu_time() -> f64 {
-    let mut ru: libc::rusage = unsafe { std::mem::zeroed() };
-    // SAFETY: plain out-parameter call
-    if unsafe { libc::getrusage(libc::RUSAGE_SELF, &mut ru) } != 0 {
-        return 0.0;
-    }
-    let f = |t: libc::timeval| t.tv_sec as f64 + t.tv_usec as f64 / 1e6;
-    f(ru.ru_utime) + f(ru.ru_stime)
 }
 
 fn perturbed_handle(st: &Arc<Storage>, p: &Perturb) -> crate::membe::MemBackend {
@@ -356,7 +301,7 @@ pub fn run(c: &Case, _ctx: &Ctx) -> Outcome {
     for (i, p) in c.perturbations.iter().enumerate() {
         let r = match one_run(c, p) {
             Ok(r) => r,
-            Err(e) if e == SKIP_AFTER_DEADLOCK => return out.skip("after_deadlock_in_this_worker"),
+            Err(e) if e == crate::engine::SKIP_AFTER_DEADLOCK => return out.skip("after_deadlock_in_this_worker"),
             Err(e) => {
                 out.failure = Some(format!("run #{i} ({p:?}): {e}"));
                 return out;
